@@ -81,10 +81,11 @@ def run(ctx, chk):
                 if not fn:
                     continue
                 nm = mir.callee_name(fn)
-                nb = fb.body(nm) or (fb.body(fn['path']) if fn.get('defkind') == 'Closure' else None)
-                if is_read(nm) or (nb is not None and common.reaches_call(fb, nb, is_read)):
+                nbs = common.callee_bodies(fb, fn)      # (a trait method on a type parameter: every workspace impl)
+                nb = nbs[0] if len(nbs) == 1 else None
+                if is_read(nm) or (nbs and all(is_read(x.path) or common.reaches_call(fb, x, is_read) for x in nbs)):
                     reads.append((bb, nb))
-                if is_chrony_query(fn['path']) or is_chrony_query(nm) or (nb is not None and common.reaches_call(fb, nb, is_chrony_query)):
+                if is_chrony_query(fn['path']) or is_chrony_query(nm) or any(common.reaches_call(fb, x, is_chrony_query) for x in nbs):
                     queries.append((bb, nb))
             chk.analysed['call_sites'] += len(reads) + len(queries)
             ok_all = True
